@@ -1,0 +1,7 @@
+//go:build !verif
+// +build !verif
+
+package simdjson
+
+// verifEvent is a no-op unless the package is built with the "verif" tag.
+func verifEvent(ev int, a, b uint64) {}
